@@ -146,8 +146,12 @@ def _replay_chunk(arg):
     sys.path.insert(0, os.environ.get("VERIF_REPO", "/repo"))
     from lib.guard import HardTimeout, limits, time_limit
 
-    limits()
     recs, dialect, normalize, salt = arg
+    if isinstance(recs, str):
+        from lib.spill import load
+
+        recs = load(recs)
+    limits()
     bad, drift, errs = [], [], []
     n = nontrivial = 0
     for rec in recs:
@@ -195,12 +199,23 @@ def replay_config(ctx, *, depth, strategy, normalize, maxops, styles, cols, dial
     recs = res.printed
     if abs(len(recs) - res.generated) > 1:
         raise MachineryError(f"emitted {len(recs)} transitions, TLC generated {res.generated}")
-    for dialect in dialects:
-        chunks = [recs[i::32] for i in range(32)]
+    import gc
+
+    from lib.spill import spill
+
+    chunks = [recs[i::64] for i in range(64)]
+    sample_rec = recs[len(recs) // 2] if recs else None
+    res.stdout = ""
+    res.printed = recs = None  # workers read their share from disk; nothing large is inherited through fork
+    for di, dialect in enumerate(dialects):
+        paths = spill(ctx.work, f"c18_{label}_{di}", chunks)
+        if di == len(dialects) - 1:
+            chunks = None
+        gc.collect()
         tot = nt = 0
         bad, drift, errs = [], [], []
         with ProcessPoolExecutor(max_workers=16) as ex:
-            for n, k, b, d, e in ex.map(_replay_chunk, [(c, dialect, normalize, ctx.seed + j) for j, c in enumerate(chunks) if c]):
+            for n, k, b, d, e in ex.map(_replay_chunk, [(pth, dialect, normalize, ctx.seed + j) for j, pth in enumerate(paths)]):
                 tot += n
                 nt += k
                 bad += b
@@ -225,8 +240,8 @@ def replay_config(ctx, *, depth, strategy, normalize, maxops, styles, cols, dial
             ctx.drift(f"history raised {e['err']}: {[c['op'] for c in e['h']]}")
         if len(errs) > tot // 20:
             raise MachineryError(f"{len(errs)} of {tot} histories crashed: {errs[0]}")
-    if recs:
-        r = recs[len(recs) // 2]
+    if sample_rec:
+        r = sample_rec
         ctx.sample({"kind": "replayed model history", "depth": depth, "strategy": strategy, "history": r["h"], "model_answer": r["got"]})
 
 
